@@ -287,6 +287,38 @@ func hostileWorkload(r *mon.Run, run func(hostileCase) (consumedIfAllRejected in
 			}
 		}
 	}
+	// (d2) inheritance shapes: every small allOf / additionalProperties graph of C07's exhaustive family and sampled
+	// random ones (two parents carrying the same rule, chains of three, conflicts, refusals)
+	{
+		small, _ := c07Small()
+		for i, gp := range small {
+			if r.Mine(i) {
+				p := toTexts(gp, gen.DefaultLayout)
+				run(hostileCase{Kind: "project", Project: &p, Source: "small allOf / additionalProperties graphs"})
+			}
+		}
+		irng := r.Rand("c02-inherit")
+		for n := r.Share(r.Pick(1600, 40_000)); n > 0; n-- {
+			p := toTexts(c07Random(irng), gen.DefaultLayout)
+			run(hostileCase{Kind: "project", Project: &p, Source: "random allOf / additionalProperties projects"})
+		}
+	}
+	// (d3) a first line longer than 4 KiB / 64 KiB, then a defect on a later line, under every newline convention
+	{
+		li := 0
+		for _, n := range []int{100, 4090, 4096, 5000, 70_000} {
+			for _, nl := range []string{"\n", "\r\n", "\r"} {
+				if r.Mine(li) {
+					long := strings.Repeat("a", n)
+					text(epSchema|epEnum|epDoc, "[ \""+long+"\","+nl+"  1,"+nl+"  x"+nl+"]", "long first line, defect on a later line")
+					text(epSchema, "{ # "+long+nl+"  \"k\": 1, // {min: 5}"+nl+"  \"z\": tru"+nl+"}", "long first line, defect on a later line")
+					text(epSchema, "{"+nl+"  \"k\": \""+long+"\","+nl+"  \"z\": 1 // {min: 5}"+nl+"}", "long second line, defect on a later line")
+					text(epEnum, "["+nl+" \""+long+"\", // "+long+nl+" 1, 1"+nl+"]", "long second line, defect on a later line")
+				}
+				li++
+			}
+		}
+	}
 	// (f) numbers with exponents at the machine-word boundaries
 	if r.Shard == 1 {
 		for _, e := range []string{"2147483647", "2147483648", "4294967295", "4294967296", "9223372036854775806", "9223372036854775807", "9223372036854775808",
@@ -443,7 +475,7 @@ func init() {
 		ID:                 "C02",
 		Run:                func(r *mon.Run) { hostileRun(r, c02Judge(r)) },
 		Replay:             hostileReplay(c02Judge),
-		Rule:               "hostile inputs to every public entry point (JSchema Len/Check/Example/GetAST/UsedUserTypes/AddType/AddRule, Enum Len/Check/Values/GetAST, RSchema Check/Len/Example/GetAST/Pattern/AddType, Document Check/Len/NextLexeme in both modes, NewNumber, GuessSchemaType, OpenAPI conversion of accepted schemas), each call on fresh objects under a recover: (a) every token string up to a length bound per family (schema 34 tokens, len 3 quick / 5 thorough, with viable-prefix pruning from the H3 scanner probe; enum, regex, number, document alphabets; every number-shaped byte string over 0 1 - + . e x up to 5 / 6 hosted in an enum rule, a schema value, a rule value and a document; annotation bodies: 19 compound tokens (incl. the empty string) up to 5 / 6 inside `1 /* … */` and after `1 // `), (b) every truncation, token deletion/duplication/substitution and CRLF/CR variant of every string literal harvested from the repository's tests, (c) random byte and token soups up to 9 KiB, (d) all 1-type (and, thorough, 2-type; sampled 2/3-type) projects of self/mutually referencing user types from 18 reference templates, (d') 81 x 4 projects with a check-time defect inside a member that other types inherit through allOf or reach by reference (heir named before and after the base, member behind padding lines), (e) nesting ladder up to 2000 (quick) / 10000 (thorough). A violation is an escaped panic, a worker death or CPU-budget overrun that reproduces in a fresh process, or a scan using more than 2*len+8 steps. distinct_nontrivial = distinct (entry family, text) / projects (hashed).",
+		Rule:               "hostile inputs to every public entry point (JSchema Len/Check/Example/GetAST/UsedUserTypes/AddType/AddRule, Enum Len/Check/Values/GetAST, RSchema Check/Len/Example/GetAST/Pattern/AddType, Document Check/Len/NextLexeme in both modes, NewNumber, GuessSchemaType, OpenAPI conversion of accepted schemas), each call on fresh objects under a recover: (a) every token string up to a length bound per family (schema 34 tokens, len 3 quick / 5 thorough, with viable-prefix pruning from the H3 scanner probe; enum, regex, number, document alphabets; every number-shaped byte string over 0 1 - + . e x up to 5 / 6 hosted in an enum rule, a schema value, a rule value and a document; annotation bodies: 19 compound tokens (incl. the empty string) up to 5 / 6 inside `1 /* … */` and after `1 // `), (b) every truncation, token deletion/duplication/substitution and CRLF/CR variant of every string literal harvested from the repository's tests, (c) random byte and token soups up to 9 KiB, (d) all 1-type (and, thorough, 2-type; sampled 2/3-type) projects of self/mutually referencing user types from 18 reference templates, (d') 81 x 4 projects with a check-time defect inside a member that other types inherit through allOf or reach by reference (heir named before and after the base, member behind padding lines), (d2) C07's exhaustive small allOf / additionalProperties graphs and 1.6k / 40k random ones, (d3) texts whose first or second line is 100 B .. 70 KB long with a defect on a later line under LF / CRLF / CR, (e) nesting ladder up to 2000 (quick) / 10000 (thorough). A violation is an escaped panic, a worker death or CPU-budget overrun that reproduces in a fresh process, or a scan using more than 2*len+8 steps. distinct_nontrivial = distinct (entry family, text) / projects (hashed).",
 		MinNontrivialQuick: 100000, MinNontrivialThorough: 1000000,
 		Assumptions: []string{"inputs up to 64 KiB and nesting up to 10^4 (deeper nesting costs tens of CPU-seconds per call on this tree: slow, but it returns); exponents above 10^6 are rejected by the library since the fix recorded in known_findings.jsonl", "OpenAPI conversion is only exercised for accepted schemas",
 			"a process death counts only if it reproduces on the same case in a fresh process; CPU budget 300 s per case (process CPU time, not wall clock)"},
